@@ -646,6 +646,7 @@ type ContractFile struct {
 	Lemmas    []*Lemma
 	Invs      []*Lemma
 	Monitors  []*Monitor
+	GhostVars []Binder
 	SMT       []string // raw prelude lines
 	SpecTypes map[string]string
 	Ghosts    []*GhostField
@@ -656,7 +657,7 @@ type ContractFile struct {
 var clauseKeywords = map[string]bool{
 	"requires": true, "ensures": true, "assigns": true, "loop": true, "arith": true, "strings": true,
 	"may_panic": true, "check": true, "assumed": true, "effect": true, "ghostparam": true, "nocheck": true,
-	"pure": true, "inline": true, "reveal": true, "bind": true, "let": true, "mode": true, "callsite": true, "unrollall": true, "fresh": true,
+	"pure": true, "inline": true, "reveal": true, "always": true, "bind": true, "let": true, "mode": true, "callsite": true, "unrollall": true, "fresh": true,
 }
 var topKeywords = map[string]bool{
 	"func": true, "spec": true, "axiom": true, "lemma": true, "invariant": true, "monitor": true, "smt": true, "ghost": true, "bvtype": true, "bvtypes": true, "const": true,
@@ -727,6 +728,14 @@ func parseContractLines(pkg, path string, lines []string, linenos []int) (*Contr
 				return nil, fail(fmt.Errorf("const needs ="))
 			}
 			cf.Consts[strings.TrimSpace(rest[:k])] = strings.TrimSpace(rest[k+1:])
+			cur = nil
+		case w == "ghost" && strings.HasPrefix(rest, "var "):
+			// ghost var name type   (package-level ghost state)
+			f := strings.Fields(rest)
+			if len(f) != 3 {
+				return nil, fail(fmt.Errorf("ghost var <name> <type>"))
+			}
+			cf.GhostVars = append(cf.GhostVars, Binder{f[1], TypeExpr{f[2]}})
 			cur = nil
 		case w == "ghost":
 			// ghost field T.name type
@@ -873,6 +882,12 @@ func parseContractLines(pkg, path string, lines []string, linenos []int) (*Contr
 					cl.E = e
 				}
 				cur.Clauses = append(cur.Clauses, cl)
+			case "always":
+				e, err := parseExpr(rest)
+				if err != nil {
+					return nil, fail(err)
+				}
+				cur.Clauses = append(cur.Clauses, &Clause{Kind: w, Text: rest, E: e, Line: where})
 			case "effect", "ghostparam", "bind", "let", "callsite":
 				cur.Clauses = append(cur.Clauses, &Clause{Kind: w, Text: rest, Line: where})
 			default:
